@@ -8,7 +8,8 @@ def p_parts():
     from ._append import p_append
     from ._parts import p_parts as p_partnames
     from ._bookkeeping import p_bookkeeping
-    return [p_append, p_partnames, p_bookkeeping]
+    from ._generic import optional_parts
+    return [p_append, p_partnames, p_bookkeeping] + optional_parts(("_partfiles", "p_partfiles"))
 
 
 def run(ctx):
